@@ -94,6 +94,7 @@ func cmdVerify(args []string) int {
 	timeout := fs.Duration("timeout", 20*time.Second, "")
 	verbose := fs.Bool("v", false, "")
 	fs.Parse(args)
+	repoRoot = strings.TrimSuffix(*repo, "/")
 	cs := loadContracts(*repo, *verif)
 	var sel []string
 	pkgSet := map[string]bool{}
